@@ -15,8 +15,11 @@ package main
 import (
 	"errors"
 	"fmt"
+	"os"
+	"path/filepath"
 	"sort"
 	"strings"
+	"time"
 
 	"github.com/semihalev/twig"
 
@@ -34,25 +37,76 @@ type stats struct {
 func newStats() *stats { return &stats{map[string]int{}, map[string]int{}} }
 
 type tsLoader struct { // L1: timestamp-aware
-	src map[string]string
+	src map[string]string // what L1 holds (in the "fs" arrangement: a mirror of the files on disk)
 	mt  map[string]int64
 	st  *stats
+	fs  *twig.FileSystemLoader // "fs" arrangement: the real loader answers, this type only counts
 }
 
 func (l *tsLoader) Load(n string) (string, error) {
 	l.st.loads[n]++
 	l.st.consult[n]++
+	if l.fs != nil {
+		return l.fs.Load(n)
+	}
 	if s, ok := l.src[n]; ok {
 		return s, nil
 	}
 	return "", fmt.Errorf("%w: %s (L1)", twig.ErrTemplateNotFound, n)
 }
-func (l *tsLoader) Exists(n string) bool { l.st.consult[n]++; _, ok := l.src[n]; return ok }
+func (l *tsLoader) Exists(n string) bool {
+	l.st.consult[n]++
+	if l.fs != nil {
+		return l.fs.Exists(n)
+	}
+	_, ok := l.src[n]
+	return ok
+}
 func (l *tsLoader) GetModifiedTime(n string) (int64, error) {
+	if l.fs != nil {
+		return l.fs.GetModifiedTime(n)
+	}
 	if t, ok := l.mt[n]; ok {
 		return t, nil
 	}
 	return 0, fmt.Errorf("%w: %s (L1)", twig.ErrTemplateNotFound, n)
+}
+
+// scratch directories of this process ("fs" and "builtin" arrangements)
+var scratch string
+
+func scratchDir(sub string) string {
+	if scratch == "" {
+		d, err := os.MkdirTemp("", "c15-fs-")
+		if err != nil {
+			panic(err)
+		}
+		scratch = d
+		os.Mkdir(filepath.Join(d, "tpl"), 0o755)
+		os.Mkdir(filepath.Join(d, "empty"), 0o755)
+	}
+	return filepath.Join(scratch, sub)
+}
+
+const epoch = 1_000_000_000
+
+func (l *tsLoader) write(n string) { // mirror src/mt of one name to disk
+	if l.fs == nil {
+		return
+	}
+	path := filepath.Join(scratchDir("tpl"), n+".twig")
+	s, ok := l.src[n]
+	if !ok {
+		os.Remove(path)
+		return
+	}
+	if err := os.WriteFile(path, []byte(s), 0o644); err != nil {
+		panic(err)
+	}
+	t := time.Unix(epoch+l.mt[n], 0)
+	if err := os.Chtimes(path, t, t); err != nil {
+		panic(err)
+	}
 }
 
 type plainLoader struct { // L2: no timestamps
@@ -123,21 +177,23 @@ const incSource = "<{% include 'n1' %}>"
 // variants
 
 type variant struct {
-	Chain  bool   // loaders behind one ChainLoader instead of registered one by one
+	// Arr: "sep" L1 and L2 registered one after the other; "chain" both behind one ChainLoader;
+	// "builtin" like sep, followed by an empty ArrayLoader, FileSystemLoader and CompiledLoader;
+	// "fs" L1 is a real FileSystemLoader on a scratch directory (modification times set with Chtimes)
+	Arr    string
 	Seeded bool   // start with n1 in L1 and L2 and n2 in L2 (instead of empty loaders)
 	Reg    string // "str" RegisterString, "tpl" RegisterTemplate, "cmp" RegisterCompiledTemplate
 }
 
 func (v variant) String() string {
-	a, s := "sep", "empty"
-	if v.Chain {
-		a = "chain"
-	}
+	s := "empty"
 	if v.Seeded {
 		s = "seeded"
 	}
-	return a + "/" + s + "/" + v.Reg
+	return v.Arr + "/" + s + "/" + v.Reg
 }
+
+func (v variant) chain() bool { return v.Arr == "chain" }
 
 // ---------------------------------------------------------------------------------------------
 // world = live engine + reference state
@@ -170,28 +226,75 @@ type world struct {
 	kinds  map[string]int64
 }
 
-func newWorld(v variant) *world {
+func newWorld(v variant) *world { return newWorldOpt(v, true) }
+
+// newWorldOpt: without an engine the world is the reference machine alone (used to enumerate the
+// reference states).
+func newWorldOpt(v variant, withEngine bool) *world {
 	st := newStats()
-	w := &world{v: v, e: twig.New(), st: st,
+	w := &world{v: v, st: st,
 		l1:    &tsLoader{src: map[string]string{}, mt: map[string]int64{}, st: st},
 		l2:    &plainLoader{src: map[string]string{"inc": incSource}, st: st},
 		cache: true, cached: map[string]entry{}, dirty: map[string]bool{}, clock: 10, kinds: map[string]int64{}}
+	if withEngine {
+		w.e = twig.New()
+	}
+	if v.Arr == "fs" && withEngine {
+		w.l1.fs = twig.NewFileSystemLoader([]string{scratchDir("tpl")})
+		w.l1.write("n1") // nothing in src yet: removes what an earlier history left behind
+		w.l1.write("n2")
+	}
 	if v.Seeded {
 		w.ver++
 		w.clock++
 		w.l1.src["n1"], w.l1.mt["n1"] = fmt.Sprintf("v%d@L1", w.ver), w.clock
+		w.l1.write("n1")
 		w.ver++
 		w.l2.src["n1"] = fmt.Sprintf("v%d@L2", w.ver)
 		w.ver++
 		w.l2.src["n2"] = fmt.Sprintf("v%d@L2", w.ver)
 	}
-	if v.Chain {
+	if !withEngine {
+		return w
+	}
+	switch v.Arr {
+	case "chain":
 		w.e.RegisterLoader(twig.NewChainLoader([]twig.Loader{w.l1, w.l2}))
-	} else {
+	case "builtin":
+		w.e.RegisterLoader(w.l1)
+		w.e.RegisterLoader(w.l2)
+		w.e.RegisterLoader(twig.NewArrayLoader(map[string]string{}))
+		w.e.RegisterLoader(twig.NewFileSystemLoader([]string{scratchDir("empty")}))
+		w.e.RegisterLoader(twig.NewCompiledLoader(scratchDir("empty")))
+	default:
 		w.e.RegisterLoader(w.l1)
 		w.e.RegisterLoader(w.l2)
 	}
 	return w
+}
+
+// cloneModel copies the reference state (no engine).
+func (w *world) cloneModel() *world {
+	c := &world{v: w.v, st: newStats(), cache: w.cache, reload: w.reload, ver: w.ver, clock: w.clock,
+		cached: map[string]entry{}, dirty: map[string]bool{}, kinds: map[string]int64{}}
+	c.l1 = &tsLoader{src: map[string]string{}, mt: map[string]int64{}, st: c.st}
+	c.l2 = &plainLoader{src: map[string]string{}, st: c.st}
+	for k, x := range w.l1.src {
+		c.l1.src[k] = x
+	}
+	for k, x := range w.l1.mt {
+		c.l1.mt[k] = x
+	}
+	for k, x := range w.l2.src {
+		c.l2.src[k] = x
+	}
+	for k, x := range w.cached {
+		c.cached[k] = x
+	}
+	for k, x := range w.dirty {
+		c.dirty[k] = x
+	}
+	return c
 }
 
 // applicable: operations that are pure no-ops of the harness (touching or deleting what is not
@@ -212,13 +315,13 @@ func (w *world) applicable(o op) bool {
 
 func (w *world) fromLoaders(n string) (entry, bool) {
 	if s, ok := w.l1.src[n]; ok {
-		if w.v.Chain {
+		if w.v.chain() {
 			return entry{s, orgChain, 0}, true
 		}
 		return entry{s, orgL1, w.l1.mt[n]}, true
 	}
 	if s, ok := w.l2.src[n]; ok {
-		if w.v.Chain {
+		if w.v.chain() {
 			return entry{s, orgChain, 0}, true
 		}
 		return entry{s, orgL2, 0}, true
@@ -294,6 +397,9 @@ func (w *world) modelGet(n string) expect {
 }
 
 func (w *world) listing() string {
+	if w.e == nil {
+		return ""
+	}
 	ns := w.e.GetCachedTemplateNames()
 	sort.Strings(ns)
 	return strings.Join(ns, ",")
@@ -324,6 +430,9 @@ func (w *world) apply(o op) string {
 		before := w.listing()
 		loads0, cons0 := w.st.loads[o.n], w.st.consult[o.n]
 		ex := w.modelGet(o.n)
+		if w.e == nil {
+			return ""
+		}
 		out, err := w.get(o)
 		w.kinds[ex.kind]++
 		if ex.dontcare {
@@ -335,6 +444,9 @@ func (w *world) apply(o op) string {
 		var ex expect
 		if exOuter.found {
 			ex = w.modelGet("n1")
+		}
+		if w.e == nil {
+			return ""
 		}
 		loads0, cons0 := w.st.loads["n1"], w.st.consult["n1"]
 		out, err := w.get(o)
@@ -350,13 +462,14 @@ func (w *world) apply(o op) string {
 		w.ver++
 		src := fmt.Sprintf("v%d@R", w.ver)
 		var err error
-		switch w.v.Reg {
-		case "tpl":
+		switch {
+		case w.e == nil:
+		case w.v.Reg == "tpl":
 			var t *twig.Template
 			if t, err = w.e.ParseTemplate(src); err == nil {
 				w.e.RegisterTemplate(o.n, t)
 			}
-		case "cmp":
+		case w.v.Reg == "cmp":
 			e2 := twig.New()
 			if err = e2.RegisterString(o.n, src); err == nil {
 				var c *twig.CompiledTemplate
@@ -376,37 +489,46 @@ func (w *world) apply(o op) string {
 		w.ver++
 		w.clock++
 		w.l1.src[o.n], w.l1.mt[o.n] = fmt.Sprintf("v%d@L1", w.ver), w.clock
+		w.l1.write(o.n)
 	case opMod2:
 		w.ver++
 		w.l2.src[o.n] = fmt.Sprintf("v%d@L2", w.ver)
 	case opTouch1:
 		w.clock++
 		w.l1.mt[o.n] = w.clock
+		w.l1.write(o.n)
 	case opDel1:
 		delete(w.l1.src, o.n)
 		delete(w.l1.mt, o.n)
+		w.l1.write(o.n)
 	case opDel2:
 		delete(w.l2.src, o.n)
 	case opCache0:
-		w.e.SetCache(false)
+		w.setCfg(func(e *twig.Engine) { e.SetCache(false) })
 		w.cache = false
 	case opCache1:
-		w.e.SetCache(true)
+		w.setCfg(func(e *twig.Engine) { e.SetCache(true) })
 		w.cache = true
 	case opReload0:
-		w.e.SetAutoReload(false)
+		w.setCfg(func(e *twig.Engine) { e.SetAutoReload(false) })
 		w.reload = false
 	case opReload1:
-		w.e.SetAutoReload(true)
+		w.setCfg(func(e *twig.Engine) { e.SetAutoReload(true) })
 		w.reload = true
 	case opDev1:
-		w.e.SetDevelopmentMode(true)
+		w.setCfg(func(e *twig.Engine) { e.SetDevelopmentMode(true) })
 		w.cache, w.reload = false, true
 	case opDev0:
-		w.e.SetDevelopmentMode(false)
+		w.setCfg(func(e *twig.Engine) { e.SetDevelopmentMode(false) })
 		w.cache, w.reload = true, false
 	}
 	return ""
+}
+
+func (w *world) setCfg(f func(*twig.Engine)) {
+	if w.e != nil {
+		f(w.e)
+	}
 }
 
 func (w *world) compare(o op, n string, ex expect, out, via string, err error, listBefore string, loads0, cons0 int) string {
@@ -440,76 +562,94 @@ func (w *world) compare(o op, n string, ex expect, out, via string, err error, l
 	return ""
 }
 
-// canon is the reference state with versions and timestamps reduced to their ranks, plus the
-// implementation's cache listing.
+// canon is the reference state with version numbers and timestamps reduced to their ranks (only
+// equality of versions and the order of timestamps can ever be observed).
 func (w *world) canon() string {
-	vers := map[string]bool{}
-	times := map[int64]bool{}
-	add := func(tag string) { vers[tag] = true }
-	for _, n := range []string{"n1", "n2"} {
+	var vs []int
+	var ts []int64
+	addV := func(tag string) { vs = append(vs, verOf(tag)) }
+	for _, n := range [...]string{"n1", "n2"} {
 		if s, ok := w.l1.src[n]; ok {
-			add(s)
-			times[w.l1.mt[n]] = true
+			addV(s)
+			ts = append(ts, w.l1.mt[n])
 		}
 		if s, ok := w.l2.src[n]; ok {
-			add(s)
+			addV(s)
 		}
 		if c, ok := w.cached[n]; ok {
-			add(c.tag)
+			addV(c.tag)
 			if c.origin == orgL1 {
-				times[c.mtime] = true
+				ts = append(ts, c.mtime)
 			}
 		}
 	}
-	var vs []string
-	for v := range vers {
-		vs = append(vs, v)
-	}
-	sort.Slice(vs, func(i, j int) bool { // by version number
-		var a, b int
-		fmt.Sscanf(vs[i], "v%d", &a)
-		fmt.Sscanf(vs[j], "v%d", &b)
-		return a < b
-	})
-	vr := map[string]int{}
-	for i, v := range vs {
-		vr[v] = i
-	}
-	var ts []int64
-	for t := range times {
-		ts = append(ts, t)
-	}
+	sort.Ints(vs)
 	sort.Slice(ts, func(i, j int) bool { return ts[i] < ts[j] })
-	tr := map[int64]int{}
-	for i, t := range ts {
-		tr[t] = i
+	vrank := func(tag string) int { // rank among the distinct values
+		v, r := verOf(tag), 0
+		for i, x := range vs {
+			if i > 0 && x == vs[i-1] {
+				continue
+			}
+			if x < v {
+				r++
+			}
+		}
+		return r
 	}
-	var b strings.Builder
-	fmt.Fprintf(&b, "c%v r%v|", w.cache, w.reload)
-	for _, n := range []string{"n1", "n2", "inc"} {
-		b.WriteString(n + ":")
+	trank := func(t int64) int {
+		r := 0
+		for i, x := range ts {
+			if i > 0 && x == ts[i-1] {
+				continue
+			}
+			if x < t {
+				r++
+			}
+		}
+		return r
+	}
+	b := make([]byte, 0, 96)
+	flag := func(f bool) {
+		if f {
+			b = append(b, '1')
+		} else {
+			b = append(b, '0')
+		}
+	}
+	flag(w.cache)
+	flag(w.reload)
+	for _, n := range [...]string{"n1", "n2", "inc"} {
+		b = append(b, '|')
 		if s, ok := w.l1.src[n]; ok {
-			fmt.Fprintf(&b, "L1=%d@%d ", vr[s], tr[w.l1.mt[n]])
+			b = append(b, 'a', byte('0'+vrank(s)), '@', byte('0'+trank(w.l1.mt[n])))
 		}
 		if s, ok := w.l2.src[n]; ok && n != "inc" {
-			fmt.Fprintf(&b, "L2=%d ", vr[s])
+			b = append(b, 'b', byte('0'+vrank(s)))
 		}
 		if c, ok := w.cached[n]; ok {
 			if n == "inc" {
-				b.WriteString("C ")
-			} else if c.origin == orgL1 {
-				fmt.Fprintf(&b, "C=%d/%d@%d ", vr[c.tag], c.origin, tr[c.mtime])
+				b = append(b, 'C')
 			} else {
-				fmt.Fprintf(&b, "C=%d/%d ", vr[c.tag], c.origin)
+				b = append(b, 'c', byte('0'+vrank(c.tag)), byte('0'+c.origin))
+				if c.origin == orgL1 {
+					b = append(b, '@', byte('0'+trank(c.mtime)))
+				}
 			}
 		}
 		if w.dirty[n] {
-			b.WriteString("dirty ")
+			b = append(b, 'd')
 		}
-		b.WriteString("|")
 	}
-	b.WriteString(w.listing())
-	return b.String()
+	return string(b)
+}
+
+func verOf(tag string) int { // "v12@L1" -> 12
+	n := 0
+	for i := 1; i < len(tag) && tag[i] >= '0' && tag[i] <= '9'; i++ {
+		n = n*10 + int(tag[i]-'0')
+	}
+	return n
 }
 
 // ---------------------------------------------------------------------------------------------
@@ -693,30 +833,67 @@ func subtree(v variant, prefix []op, depth int) *vlib.Outcome {
 	return o
 }
 
-// bfs explores the reference states reachable from the histories that start with `first`,
-// breadth-first, each state once.
-func bfs(v variant, first op, maxStates, maxDepth int) *vlib.Outcome {
+// closure enumerates the reference states reachable from the start state breadth-first (reference
+// machine only, no engine) and returns the shortest history of each, in BFS order.
+func closure(v variant, maxStates int) (hists [][]op, closed bool) {
+	start := newWorldOpt(v, false)
+	seen := map[string]bool{start.canon(): true}
+	hists = [][]op{nil}
+	frontier := []*world{start}
+	closed = true
+	for i := 0; i < len(hists); i++ {
+		w := frontier[i]
+		frontier[i] = nil
+		for _, a := range alphabet {
+			if !w.applicable(a) {
+				continue
+			}
+			c := w.cloneModel()
+			c.apply(a)
+			k := c.canon()
+			if seen[k] {
+				continue
+			}
+			if len(hists) >= maxStates {
+				closed = false
+				continue
+			}
+			seen[k] = true
+			hists = append(hists, append(append([]op{}, hists[i]...), a))
+			frontier = append(frontier, c)
+		}
+	}
+	return hists, closed
+}
+
+var closureCache = map[string][][]op{}
+var closureClosed = map[string]bool{}
+
+func closureOf(v variant, maxStates int) ([][]op, bool) {
+	// the reference machine does not depend on the registration API, and the "builtin" and "fs"
+	// arrangements have the reference machine of "sep"
+	mv := variant{Arr: "sep", Seeded: v.Seeded, Reg: "str"}
+	if v.chain() {
+		mv.Arr = "chain"
+	}
+	key := fmt.Sprintf("%s|%d", mv, maxStates)
+	if h, ok := closureCache[key]; ok {
+		return h, closureClosed[key]
+	}
+	h, c := closure(mv, maxStates)
+	closureCache[key], closureClosed[key] = h, c
+	return h, c
+}
+
+// stateBlock: for each of the given reference states, replay its shortest history on a fresh engine
+// and apply every operation of the alphabet to it once.
+func stateBlock(v variant, hists [][]op) *vlib.Outcome {
 	o := &vlib.Outcome{Counters: map[string]int64{}}
 	rs := &runStats{kinds: map[string]int64{}}
-	if !applicableSeq(v, []op{first}) {
-		o.Class = "prefix-not-applicable"
-		return o
-	}
-	w, _, s := replay(v, []op{first})
-	if s != "" {
-		o.Violation, o.Detail, o.Nontrivial = s, mkDetail(v, []op{first}), true
-		return o
-	}
-	seen := map[string]bool{w.canon(): true}
-	queue := [][]op{{first}}
-	capped := false
-	deepest := 1
-	for len(queue) > 0 && o.Violation == "" {
-		h := queue[0]
-		queue = queue[1:]
-		if len(h) >= maxDepth {
-			capped = true
-			continue
+	deepest := 0
+	for _, h := range hists {
+		if len(h) > deepest {
+			deepest = len(h)
 		}
 		for _, a := range alphabet {
 			nh := append(append([]op{}, h...), a)
@@ -729,35 +906,20 @@ func bfs(v variant, first op, maxStates, maxDepth int) *vlib.Outcome {
 				o.Violation, o.Detail = s, mkDetail(v, nh)
 				break
 			}
-			k := w.canon()
-			if seen[k] {
-				continue
-			}
-			if len(seen) >= maxStates {
-				capped = true
-				continue
-			}
-			seen[k] = true
-			queue = append(queue, nh)
-			if len(nh) > deepest {
-				deepest = len(nh)
-			}
+		}
+		if o.Violation != "" {
+			break
 		}
 	}
-	o.Counters["bfs_states"] = int64(len(seen))
+	o.Counters["bfs_states"] = int64(len(hists))
 	o.Counters["bfs_transitions"] = rs.histories
 	o.Counters["transitions"] = rs.transitions
 	o.Counters["lookups_checked"] = rs.gets
 	o.Counters["lookups_left_open"] = rs.open
-	if capped {
-		o.Counters["bfs_subtrees_capped"] = 1
-	} else {
-		o.Counters["bfs_subtrees_closed"] = 1
-	}
 	for k, c := range rs.kinds {
 		o.Counters["kind_"+k] = c
 	}
-	o.Class = fmt.Sprintf("bfs depth %d capped=%v %s", deepest, capped, classOf(rs.kinds))
+	o.Class = fmt.Sprintf("bfs, shortest history %d: %s", deepest, classOf(rs.kinds))
 	o.Nontrivial = rs.gets > 0
 	return o
 }
@@ -768,40 +930,69 @@ type plan struct {
 	v      variant
 	depth  int
 	prefix int
+	late   bool // enumerated after phase B
 }
 
 func plans(thorough bool) []plan {
 	var ps []plan
-	all := []variant{}
-	for _, chain := range []bool{false, true} {
+	var all []variant
+	for _, arr := range []string{"sep", "chain", "builtin"} {
 		for _, seeded := range []bool{true, false} {
 			for _, reg := range []string{"str", "tpl", "cmp"} {
-				all = append(all, variant{chain, seeded, reg})
+				all = append(all, variant{arr, seeded, reg})
 			}
 		}
 	}
 	if thorough {
 		for _, v := range all {
-			ps = append(ps, plan{v, 5, 3})
+			ps = append(ps, plan{v, 5, 3, false})
 		}
-		ps = append(ps, plan{variant{false, true, "str"}, 6, 3}, plan{variant{false, false, "str"}, 6, 3})
+		ps = append(ps, plan{variant{"fs", true, "str"}, 4, 2, false}, plan{variant{"fs", false, "str"}, 4, 2, false})
+		ps = append(ps, plan{variant{"sep", true, "str"}, 6, 3, true}, plan{variant{"sep", false, "str"}, 6, 3, true})
 	} else {
 		for _, v := range all {
-			ps = append(ps, plan{v, 4, 2})
+			ps = append(ps, plan{v, 4, 2, false})
 		}
-		ps = append(ps, plan{variant{false, true, "str"}, 5, 3})
+		ps = append(ps, plan{variant{"fs", true, "str"}, 3, 2, false}, plan{variant{"fs", false, "str"}, 3, 2, false})
+		ps = append(ps, plan{variant{"sep", true, "str"}, 5, 3, false})
 	}
 	return ps
 }
+
+type bfsPlan struct {
+	v         variant
+	maxStates int
+}
+
+func bfsPlans(thorough bool) []bfsPlan {
+	const all = 1 << 30
+	if thorough {
+		return []bfsPlan{
+			{variant{"sep", false, "str"}, all},
+			{variant{"chain", false, "str"}, all},
+			{variant{"sep", false, "tpl"}, all},
+			{variant{"builtin", false, "cmp"}, all},
+			{variant{"fs", false, "str"}, 20000},
+		}
+	}
+	return []bfsPlan{
+		{variant{"sep", false, "str"}, 4000},
+		{variant{"chain", false, "str"}, 4000},
+		{variant{"builtin", true, "cmp"}, 1500},
+		{variant{"fs", true, "str"}, 600},
+	}
+}
+
+const blockSize = 32
 
 func main() {
 	vlib.Main(vlib.Spec{
 		ID:    "C15",
 		Level: "model_checking",
 		Rule: "phase A: every history over the 19-letter alphabet (load/render/render-through-include, register, modify in L1/L2, touch, delete, the six configuration switches; " +
-			"two names) up to the depth bound, for each loader arrangement (separate / ChainLoader), start state (seeded / empty loaders) and registration API " +
+			"two names) up to the depth bound, for each loader arrangement (separate / ChainLoader / followed by empty built-in loaders / real FileSystemLoader with controlled modification times), start state (seeded / empty loaders) and registration API " +
 			"(RegisterString / RegisterTemplate / RegisterCompiledTemplate), each replayed on a fresh engine and compared step by step with the reference machine; " +
-			"phase B: breadth-first search over the reference states (versions and timestamps reduced to ranks) per first operation. " +
+			"phase B: breadth-first search from the start state over the reference states (versions and timestamps reduced to ranks), to closure in the thorough tier. " +
 			"Non-trivial = the explored subtree contains at least one Load/Render whose result the statement determines",
 		Assumptions: []string{
 			"histories longer than the depth bound are covered only by phase B, which assumes that the engine's cache state is a function of the reference state and the cache listing",
@@ -825,42 +1016,60 @@ func main() {
 }
 
 func run(t *vlib.T) {
-	// phase A
-	for _, p := range plans(t.Thorough()) {
-		p := p
-		var rec func(h []op)
-		rec = func(h []op) {
-			if t.Stopped() {
-				return
+	defer func() {
+		if scratch != "" {
+			os.RemoveAll(scratch)
+		}
+	}()
+	phaseB := func() {
+		for _, bp := range bfsPlans(t.Thorough()) {
+			bp := bp
+			hists, closed := closureOf(bp.v, bp.maxStates)
+			if closed {
+				t.Note(fmt.Sprintf("phase B %s: all %d reference states reached (closure)", bp.v, len(hists)))
+			} else {
+				t.Note(fmt.Sprintf("phase B %s: the first %d reference states in breadth-first order (cap), longest shortest history %d", bp.v, len(hists), len(hists[len(hists)-1])))
 			}
-			if len(h) >= 1 {
-				hh := append([]op{}, h...)
-				if len(h) < p.prefix {
-					// the history itself
-					t.Case(fmt.Sprintf("A|%s|d%d|=%s", p.v, p.depth, histKey(hh)), func() *vlib.Outcome { return subtree(p.v, hh, len(hh)) })
-				} else {
-					t.Case(fmt.Sprintf("A|%s|d%d|%s…", p.v, p.depth, histKey(hh)), func() *vlib.Outcome { return subtree(p.v, hh, p.depth) })
+			for i := 0; i < len(hists); i += blockSize {
+				j := i + blockSize
+				if j > len(hists) {
+					j = len(hists)
+				}
+				blk := hists[i:j]
+				t.Case(fmt.Sprintf("B|%s|states %d..%d", bp.v, i, j-1), func() *vlib.Outcome { return stateBlock(bp.v, blk) })
+			}
+		}
+	}
+	phaseA := func(late bool) {
+		for _, p := range plans(t.Thorough()) {
+			p := p
+			if p.late != late {
+				continue
+			}
+			var rec func(h []op)
+			rec = func(h []op) {
+				if t.Stopped() {
 					return
 				}
+				if len(h) >= 1 {
+					hh := append([]op{}, h...)
+					if len(h) < p.prefix {
+						// the history itself
+						t.Case(fmt.Sprintf("A|%s|d%d|=%s", p.v, p.depth, histKey(hh)), func() *vlib.Outcome { return subtree(p.v, hh, len(hh)) })
+					} else {
+						t.Case(fmt.Sprintf("A|%s|d%d|%s…", p.v, p.depth, histKey(hh)), func() *vlib.Outcome { return subtree(p.v, hh, p.depth) })
+						return
+					}
+				}
+				for _, a := range alphabet {
+					rec(append(h, a))
+				}
 			}
-			for _, a := range alphabet {
-				rec(append(h, a))
-			}
-		}
-		rec(nil)
-	}
-	// phase B
-	maxStates, maxDepth := 1500, 8
-	if t.Thorough() {
-		maxStates, maxDepth = 40000, 12
-	}
-	for _, chain := range []bool{false, true} {
-		for _, seeded := range []bool{true, false} {
-			v := variant{chain, seeded, "str"}
-			for _, a := range alphabet {
-				a := a
-				t.Case(fmt.Sprintf("B|%s|%s", v, a), func() *vlib.Outcome { return bfs(v, a, maxStates, maxDepth) })
-			}
+			rec(nil)
 		}
 	}
+	phaseA(false)
+	phaseB()
+	phaseA(true)
 }
+
